@@ -128,6 +128,7 @@ type checkResult struct {
 }
 
 func runUnit(u Unit, cfg *PropConfig, tier string, workdir string, res *checkResult) {
+	currentPropID = cfg.ID
 	e := NewEngine()
 	e.allocBound = cfg.AllocBound
 	dir := filepath.Join(repoDir, u.Module)
